@@ -697,3 +697,34 @@ Proof.
   - rewrite Forall_forall in *. intros r Hr. apply in_map_iff in Hr as (r0 & <- & Hr0).
     exact (H r0 Hr0).
 Qed.
+
+(* ---- a line on which the decoder fails: a quote inside an unquoted first cell --------------------------- *)
+Lemma csv_next_bare_quote comma f tailf rest n :
+  valid_delim comma = true ->
+  let enc := encode_rune comma in
+  f <> [] -> head_is_quote f = false -> index_sub enc f = None -> mem_byte QUOTE f = true ->
+  (tailf = [] \/ exists g, tailf = enc ++ g) ->
+  mem_byte LF (f ++ tailf) = false -> mem_byte CR (f ++ tailf) = false ->
+  csv_next comma (mkC ((f ++ tailf) ++ LF :: rest) n) = (CParseErr, mkC rest (S n)).
+Proof.
+  intros V enc Hne Hh Hi Hq Ht Hlf Hcr.
+  pose proof (valid_delim_good_enc comma V) as G. fold enc in G.
+  unfold csv_next. rewrite V. cbn [negb].
+  set (st := mkC ((f ++ tailf) ++ LF :: rest) n).
+  assert (Hfu : exists F, csv_fuel st = S F) by (unfold csv_fuel; exists (2 * length (c_in st) + 7); lia).
+  destruct Hfu as (F & HF). rewrite HF. cbn [next_line]. unfold st at 1.
+  rewrite readline_view by (rewrite mem_byte_app, mem_byte_cons, beqb_refl; apply orb_true_r).
+  rewrite view_app_plain by assumption. rewrite view_lf. cbn [fst snd].
+  assert (Hb : is_blank ((f ++ tailf) ++ [LF]) = false).
+  { destruct f as [|b f]; [congruence|]. cbn [app]. apply is_blank_long.
+    destruct (f ++ tailf); discriminate. }
+  rewrite Hb. fold enc.
+  assert (Hhead : head_is_quote ((f ++ tailf) ++ [LF]) = false).
+  { destruct f as [|b f]; [congruence|]. exact Hh. }
+  rewrite pf_unquoted by exact Hhead.
+  destruct Ht as [-> | (g & ->)].
+  - rewrite app_nil_r. rewrite (index_sub_none_app enc LF (enc_ne enc G) (enc_lf enc G) f Hi).
+    cbn zeta. rewrite strip_last_app, Hq. reflexivity.
+  - rewrite <- !app_assoc. rewrite (index_sub_enc_here enc G f (g ++ [LF]) Hi).
+    cbn zeta. rewrite firstn_app_len, Hq. reflexivity.
+Qed.
